@@ -39,6 +39,27 @@ func (f Fact) zero() bool {
 // Facts maps SSA values (and Alloc cells, for variables that live in memory) to facts.
 type Facts map[ssa.Value]Fact
 
+// Retain drops the facts about values that do not satisfy keep.
+func (fs Facts) Retain(keep func(ssa.Value) bool) {
+	for k := range fs {
+		if !keep(k) {
+			delete(fs, k)
+		}
+	}
+}
+
+// IsErrorValue reports whether v is of type error, or a cell holding an error.
+func IsErrorValue(v ssa.Value) bool {
+	t := v.Type()
+	if types.TypeString(t, nil) == "error" {
+		return true
+	}
+	if p, ok := t.(*types.Pointer); ok && types.TypeString(p.Elem(), nil) == "error" {
+		return true
+	}
+	return false
+}
+
 // Clone copies the map.
 func (fs Facts) Clone() Facts {
 	out := make(Facts, len(fs))
@@ -316,6 +337,10 @@ type Explorer struct {
 	Branch func(ifi *ssa.If, truth bool, st PState) bool
 	// Exit is called at Return and Panic instructions.
 	Exit func(ins ssa.Instruction, st PState)
+	// Start is the block exploration begins at (default: the entry block).
+	Start *ssa.BasicBlock
+	// Within, when non-nil, restricts the exploration to these blocks.
+	Within map[*ssa.BasicBlock]bool
 	// MaxStates bounds the exploration (default 200000).
 	MaxStates int
 	// Exceeded is set when MaxStates was hit.
@@ -337,7 +362,11 @@ func (e *Explorer) Run(init PState) {
 		st      PState
 	}
 	seen := map[string]bool{}
-	stack := []item{{e.Fn.Blocks[0], nil, init}}
+	start := e.Start
+	if start == nil {
+		start = e.Fn.Blocks[0]
+	}
+	stack := []item{{start, nil, init}}
 	for len(stack) > 0 {
 		it := stack[len(stack)-1]
 		stack = stack[:len(stack)-1]
@@ -360,6 +389,9 @@ func (e *Explorer) Run(init PState) {
 			switch x := ins.(type) {
 			case *ssa.If:
 				for i, s := range it.b.Succs {
+					if e.Within != nil && !e.Within[s] {
+						continue
+					}
 					ns := st.Copy()
 					if e.Branch == nil || e.Branch(x, i == 0, ns) {
 						stack = append(stack, item{s, it.b, ns})
@@ -367,7 +399,9 @@ func (e *Explorer) Run(init PState) {
 				}
 				alive = false
 			case *ssa.Jump:
-				stack = append(stack, item{it.b.Succs[0], it.b, st})
+				if e.Within == nil || e.Within[it.b.Succs[0]] {
+					stack = append(stack, item{it.b.Succs[0], it.b, st})
+				}
 				alive = false
 			case *ssa.Return, *ssa.Panic:
 				if e.Exit != nil {
